@@ -29,6 +29,7 @@ var props = map[string]struct {
 	"C11":    {"exploration", h.C11},
 	"C12":    {"model_checking", h.C12},
 	"C18":    {"exploration", h.C18},
+	"C20":    {"exploration", h.C20},
 	"C22":    {"model_checking", h.C22},
 	"C13":    {"exploration", h.C13},
 	"C14":    {"model_checking", h.C14},
